@@ -27,3 +27,11 @@ func (t *Trie) VerifDump() (nodes int, entries []VerifEntry) {
 	walk(t.root, nil)
 	return
 }
+
+// VerifNewProcess re-initialises the per-process state of message ids (the
+// sequence counter and the random process nonce) the way a freshly started
+// process would: a simulated restart happens inside one OS process.
+func VerifNewProcess() {
+	next = 0
+	unique = newUnique()
+}
